@@ -52,8 +52,8 @@ ASSUMPTIONS = [
   'strings whose %-formatting or repetition would allocate huge results are skipped (harness resource guard)',
 ]
 TECHNIQUE = 'grammar-based generation + differential evaluation against CPython eval'
-BUDGET = {'quick': dict(examples=12000, shards=8, max_seconds=60),
-          'thorough': dict(examples=300000, shards=16, max_seconds=600)}
+BUDGET = {'quick': dict(examples=16000, shards=8, max_seconds=60),
+          'thorough': dict(examples=400000, shards=16, max_seconds=600)}
 
 parse = predicate_formula.parse_predicate_formula
 
@@ -935,6 +935,8 @@ def run_fuzz(case):
                     'tree for %r is not JSON-serialisable: %s' % (text, e), {'text': text, 'tree': repr(tree)})
   n = count_nodes(tree)
   out['nontrivial'] = n >= 2
+  if any(isinstance(x, float) and (x != x or x in (float('inf'), float('-inf'))) for x in _flat(tree)):
+    out.cls('obs:non-finite-const-in-json')
   dollar_in_literal = '$' in text and any(ch in text for ch in '\'"#')
   if python_ok and not dollar_in_literal:
     if any(isinstance(x, list) and len(x) == 2 and x[0] is None for x in _walk_lists(tree)):
